@@ -193,10 +193,11 @@ def _native(hdir, ts, times, log, profile):
     os.rename(os.path.join(hdir, 'replay-%s.tmp' % profile), os.path.join(hdir, 'replay-%s' % profile))
 
 
-def _gc(ddir, prefix, keep):
-    for d in glob.glob(os.path.join(ddir, prefix + '*')):
-        if d != keep:
-            shutil.rmtree(d, ignore_errors=True)
+def _gc(ddir, prefix, keep, keep_recent=4):
+    """drop old dumps, but keep the most recent few: another check may still be running on them"""
+    dirs = sorted((d for d in glob.glob(os.path.join(ddir, prefix + '*')) if d != keep), key=lambda d: os.path.getmtime(d), reverse=True)
+    for d in dirs[keep_recent:]:
+        shutil.rmtree(d, ignore_errors=True)
 
 
 if __name__ == '__main__':
